@@ -2,6 +2,7 @@ import Driver.Proto
 import Driver.Ledger
 import Driver.LedgerOracle
 import Driver.Costs
+import Driver.Gains
 open Driver
 
 def runLedger (c : Case) : Res :=
@@ -21,6 +22,7 @@ def dispatch (c : Case) : Res :=
   match c.family with
   | "ledger" => runLedger c
   | "costs" => runCosts c
+  | "gains" => runGains c
   | f => { verdict := "BADCASE", msg := s!"unknown family {f}" }
 
 def main : IO Unit := do
